@@ -124,6 +124,7 @@ class _Rec:
     def fire(self, *a):
         if self.kind == "sink":
             self.run.on_sink(self.hid, a[0] if a else None)
+            self.run.reenter(self.hid)
             return None
         self.n += 1
         v = "s%d-%d" % (self.hid, self.n)
@@ -189,7 +190,8 @@ class _Hub:
 
 
 class _Ctx:
-    __slots__ = ("recvs", "deliv", "srcs", "src_deliv", "lost", "mangled", "src_targets", "src_hid", "src_seen")
+    __slots__ = ("recvs", "deliv", "srcs", "src_deliv", "lost", "mangled", "src_targets", "src_hid", "src_seen",
+                 "nested_sends", "discarded")
 
     def __init__(self):
         self.recvs = []      # (hub, ep, pos, value or None)
@@ -198,6 +200,8 @@ class _Ctx:
         self.src_deliv = []  # deliveries attributed to a source call
         self.lost = []       # (hub, endpoint, [datagrams read from the socket and then dropped inside the endpoint])
         self.mangled = []    # (hub, endpoint, read from the socket, handed to the hub)
+        self.nested_sends = []   # (hub, endpoint, token) sent by a re-entrant sink
+        self.discarded = []  # (hub, endpoint, [datagrams that had arrived and were thrown away with the socket])
         self.src_targets = {}    # hid -> set of (hub, endpoint) the source is registered on (model, at step start)
         self.src_hid = {}        # value produced by a source during this call -> hid
         self.src_seen = set()    # (hub, endpoint, value) already booked as a source delivery
@@ -221,6 +225,10 @@ class RouterRun:
         m["udp"].socket = self.sockmod
         self.pool = {}            # (hub, endpoint) -> datagrams read from the socket and not yet handed to the hub
         self._sock_dry = set()
+        self._depth = 0
+        self._cur_hub = None
+        self._reent_n = 0
+        self.net.hook_close = self._sock_close
         self.faults = Counter()
         self.probes = Counter()
         self.states = set()
@@ -338,6 +346,11 @@ class RouterRun:
             del pend[:]
         self.on_recv(hub, name, -1, v)
 
+    def _sock_close(self, sock, pending):
+        own = self._owner(sock) or getattr(sock, "_last_owner", None)
+        if own is not None and pending:
+            self.ctx.discarded.append((own[0], own[1], [d.decode("utf-8", "replace") for d in pending]))
+
     def _sock_send(self, sock, data, addr):
         own = self._owner(sock)
         if own is None:
@@ -361,6 +374,31 @@ class RouterRun:
     def on_sink(self, hid, v):
         self.log.add("sink", hid, v)
         self.ctx.add_delivery(("sink", -1, hid, v))
+
+    def reenter(self, hid):
+        """A sink may use the hub while it is being called (poll another endpoint, send something): the delivery in
+        progress must not be disturbed.  Rule mutation from a call-back stays out of scope; nesting is one level deep."""
+        spec = (self.trace["config"].get("sink_reenter") or [None, None, None])[hid]
+        if not spec or self._depth > 0 or self._cur_hub is None:
+            return
+        self._depth += 1
+        try:
+            comms = self.hubs[self._cur_hub].comms
+            self.probes["sink_reentered_hub"] += 1
+            try:
+                if spec["op"] == "get":
+                    comms.getData(spec["n"])
+                else:
+                    self._reent_n += 1
+                    tok = "r%d-%d" % (hid, self._reent_n)
+                    self.ctx.nested_sends.append((self._cur_hub, spec["n"], tok))
+                    comms.sendData(spec["n"], tok)
+            except (Violation, HarnessError, WouldHangForever):
+                raise
+            except Exception as e:      # noqa -- reported through the delivery comparison of the outer call
+                self.probes["exc_in_reentrant_sink_" + type(e).__name__] += 1
+        finally:
+            self._depth -= 1
 
     def on_source(self, hid, v):
         self.log.add("source", hid, v)
@@ -446,6 +484,7 @@ class RouterRun:
                 ctx.src_targets.setdefault(hid_, set()).add((hi, n_))
         self.log.add("step", self.steps_done, op)
         opened = self._open_flags()
+        self._cur_hub = hi
         self._ready = self._ready_inputs(hi, opened) if op == "spin" else ()
         before = self.abstract_state() if self.collect else None
         ret = None
@@ -591,6 +630,10 @@ class RouterRun:
             for o in outs:
                 pred[o] += 1
         obs_all = Counter(ctx.deliv)
+        for (h_, n_, tok_) in ctx.nested_sends:
+            if n_ in self.hubs[h_].model.known and opened[(h_, n_)]:
+                e_ = self.hubs[h_].kinds[n_]
+                pred[("mem", h_, n_, tok_) if e_["kind"] == "mem" else ("wire", h_, n_, (tok_, (HUB_IP, e_["tx"])))] += 1
         if op == "send":
             n = st["n"]
             if n in md.known:
@@ -602,6 +645,10 @@ class RouterRun:
                 else:
                     pred[("wire", hi, n, (st["tok"], (HUB_IP, e["tx"])))] += 1
 
+        if ctx.discarded and op in ("get", "spin", "send"):
+            h_, n_, vals = ctx.discarded[0]
+            raise Violation("R-fanout", "endpoint %s closed its socket during %s and threw away %r, which had already arrived: "
+                            "the message is delivered to nobody" % (n_, op, vals[:3]), {"op": op, "discarded": len(vals)})
         if ctx.mangled:
             h_, n_, got, gave = ctx.mangled[0]
             raise Violation("R-fanout", "endpoint %s read %r from its socket but handed %r to the hub: what is delivered is not "
@@ -884,6 +931,11 @@ def gen_trace(seed):
            "inbox_cap": rc.choice([1, 2, 64, 64, 64]),
            "sink_shapes": [rc.choice(["func", "method", "partial"]) for _ in range(3)],
            "source_shapes": [rc.choice(["func", "method", "partial"]) for _ in range(3)]}
+    if rc.random() < 0.25:
+        # one sink that uses the hub while it is being called (polls or sends on some endpoint of hub 0)
+        re = [None, None, None]
+        re[rc.randrange(3)] = {"op": rc.choice(["get", "get", "send"]), "n": rc.choice(hubs[0]["eps"])["n"]}
+        cfg["sink_reenter"] = re
     tau_max = max(taus) if taus else 0.1
 
     # swarm: op mix
@@ -1210,6 +1262,7 @@ EXPECTED_PROBES = [
     "duplicate_datagram_two_fanouts", "multiple_receives_in_one_call", "chained_hub_to_sink",
     "spin_sources_and_rules_same_endpoint", "spin_polled_ready_endpoint", "fanout_ge2_destinations", "fanout_ge2_sinks",
     "none_handle_rejected", "duplicate_sink_rejected", "duplicate_source_rejected", "open_close_state_checked",
+    "sink_reentered_hub",
 ]
 
 
